@@ -9,7 +9,7 @@ VERIF = os.path.dirname(os.path.dirname(os.path.abspath(__file__)))
 WT = "/tmp/verif-seeded-wt"
 
 
-def sh(cmd, cwd=None, env=None, timeout=7200):
+def sh(cmd, cwd=None, env=None, timeout=1500):
     r = subprocess.run(cmd, shell=True, cwd=cwd, capture_output=True, text=True, timeout=timeout, env=env)
     return r.returncode, r.stdout + r.stderr
 
